@@ -153,8 +153,9 @@ class _S:
         self.need(n)
         v = self.d[self.i:self.i + n]
         self.i += n
-        if not binary and b'\x00' in v:
-            raise Malformed(self.i - n, 'NUL inside a non-binary literal')
+        # RFC 3501 CHAR8 excludes NUL, but a server that stores messages verbatim (C03) has
+        # no way to send a NUL-containing body other than in a literal; the property's own
+        # clauses only forbid NUL in QUOTED strings, so it is not flagged here.
         return Literal(bytes(v), binary)
 
     def string(self):
